@@ -1,6 +1,7 @@
 import McpModel.Base.Proto
 import McpModel.Resume.Model
 import McpModel.Resume.Monitor
+import McpModel.Resume.HoldMon
 /-!
 Driver for E5 (C08, C10).
 
@@ -43,6 +44,8 @@ structure DMon where
   core   : Mon.MonS String String := { store := false, jsonMode := false }   -- the typed monitor core
   gone   : List String := []                                                -- sessions that were deleted / killed
   extra10 : Option String := none                                           -- op-level clause of the last record
+  hold   : Mon.HoldS String := {}                                           -- the typed core of the claim clauses (C08)
+  extra08 : Option String := none                                           -- claim clause of the last record
   inflight : List (String × Nat) := []                                      -- (session, id): calls accepted and not yet finished by their handler
 
 structure DState where
@@ -680,6 +683,23 @@ def parseObs (d : DState) (toks : List String) (impl : String) : Mon.Obs String 
         ({ sess := name, newProto := ((getSess d name).map (·.newProto)).getD false, rows := rows } : Mon.Snap String),
     purges := (parsePurges itoks).filterMap fun x => (parseT x.2.1).map fun n => (x.1, n, x.2.2) }
 
+/-- the implementation's observation of one record as the claim clauses see it: the GET's stream, the exchanges that were
+answered with a bare status, the handlers that returned, the snapshots of the real `streams` tables -/
+def parseHObs (toks : List String) (impl : String) : Mon.HObs String :=
+  let itoks := words impl
+  let (sess, origin) := originOf toks
+  let plain := fun (t : String) => t.startsWith "x" && !t.contains '+' && !t.contains '!'
+  { sess := sess, get := origin.stream,
+    codes := itoks.filterMap fun t =>
+      if plain t then
+        match t.splitOn ":" with
+        | [xk, kind] => kind.toNat?.map fun code => (parseX xk, code)
+        | _ => none
+      else none,
+    ends := itoks.filterMap fun t =>
+      if plain t && t.endsWith "." && !t.contains ':' then some (parseX ((t.splitOn ".").headD "")) else none,
+    snaps := itoks.filterMap fun t => if (t.splitOn "[?]").length > 1 then none else parseSnap t }
+
 def DMon.init (store jsonMode : Bool) : DMon := { core := Mon.init store jsonMode }
 
 /-- Evaluate the monitors on one record of the implementation: the typed core, plus two checks that relate
@@ -687,7 +707,8 @@ the *operation* to the observation (a response the handler produced must not van
 def DMon.onRecord (m : DMon) (d : DState) (toks : List String) (impl : String) : DMon × Mon.Viol :=
   let itoks := words impl
   let r := Mon.step provOf m.core (parseObs d toks impl)
-  let m : DMon := { m with core := r.1 }
+  let hr := Mon.holdStep m.hold (parseHObs toks impl)
+  let m : DMon := { m with core := r.1, hold := hr.1, extra08 := hr.2.map Mon.ClauseH.text }
   let (m, extra) : DMon × Option String := match toks with
     | "init" :: _ :: _ =>
       let id := (kvGet toks "id").getD "0"
@@ -765,7 +786,7 @@ def engine (prop : String) : Engine DState where
         let model := body ++ o.tail
         let (m, v) := d.mon.onRecord dn toks impl
         -- first violated clause of the requested property: typed core, then the op-level clause
-        let v08 := v.v08.map Mon.Clause08.text
+        let v08 := (v.v08.map Mon.Clause08.text).orElse fun _ => m.extra08
         let ext := fun (p : String) => m.extra10.filter (·.startsWith p)
         let v10 := (v.v10.map Mon.Clause10.text).orElse fun _ => ext "C10"
         let mviol := if prop == "C08" then v08 else if prop == "C10" then v10 else if prop == "C02" then ext "C02"
